@@ -1346,6 +1346,20 @@ def r1(ctx):
                "`len(buffer) > cap -> raise` test evaluated since the previous growth" if hi == INF
                else f"len <= {int(hi)}")
     ctx.stats["C03.R1.bound"] = worst if worst != INF else "unbounded"
+    # ... and the bound is the cap itself: what the function refuses is "more than K decoded bytes" (K + 1 is the least
+    # length any raise is reached with), so no buffer longer than K may be returned.  A cap that is only looked at
+    # before the *next* input byte lets the expansion of the last byte (up to +256) through.
+    if it.raises and worst != INF:
+        lows = [max([env[k][0] for k in env if k.startswith("#len:")] or [0]) for _n, envs in it.raises.values() for env in envs]
+        cap = (min(lows) - 1) if lows else None
+        if cap is not None and cap >= 0:
+            for rn, buf, state in it.returns:
+                hi = max((env[f"#len:{buf}"][1] for env in state.values()), default=0)
+                ctx.ob("C03.R1", f"{f.qual}: `{norm(rn)}` never hands back more than the cap it enforces", hi <= cap, ctx.w(f, rn),
+                       f"lengths above {int(cap)} are refused when more input follows, yet a buffer of up to {int(hi)} bytes can be "
+                       f"returned: the size test does not cover what the last input byte expanded to (test after the growth, "
+                       f"on every way out of the iteration)")
+            ctx.stats["C03.R1.cap"] = int(cap)
     for nid, node in it.sites.items():
         v = it.site_viol.get(nid, [])
         if v:
